@@ -5,6 +5,7 @@ entry kernels and insert/probe/clear/generation histories; direct evaluation of 
 the implementation's own outputs; multi-thread hammer as support for the relaxed-atomic abstraction."""
 import os
 import vlib
+import xlate
 
 TB_ENTRIES = 5 * 1024 * 1024 // 16
 
@@ -211,6 +212,9 @@ def run(ctx):
             ctx.violation("replay still disagrees", rp, no_input=False)
         return
     vlib.lean_obligations(ctx)
+    # translator tie: the TT kernels are regenerated from the current C++ source and proved equal to the hand models
+    # (Bridge/TT.lean); a broken tie is reported after the differential had its chance to find a failing input
+    xr = xlate.regenerate(ctx, ["TT"])
     ctx.cov["rule"] = ("index grid: every Hash size 1..64 MB, the reduced sizes while a tablebase is resident, odd sizes >= 512, x top-16 key values x low-bit patterns; "
                        "entry kernels: random and boundary field writes/reads, score x ply x ply, cut-off and replacement predicates; "
                        "histories: insert/probe/generation/clear/contempt/byte access on small tables with colliding key pools; distinct = distinct operation lines")
@@ -237,5 +241,6 @@ def run(ctx):
                               {"kind": "hammer", "variant": variant, "input": [l], "impl_output": o})
         if rc != 0 or len(out) != len(hl):
             ctx.violation(f"hammer harness died on {variant} (rc={rc})", {"kind": "impl-crash", "variant": variant, "stderr": err, "input": hl})
+    xlate.report(ctx, xr)
     if not quick:
-        vlib.leanchecker(ctx, ["TexelVerif.Props.C08"])
+        vlib.leanchecker(ctx, ["TexelVerif.Props.C08"] + (["TexelVerif.Bridge.TT"] if xr.ok else []))
